@@ -361,6 +361,13 @@ func runC04(args []string) {
 				g.msmEvent(t, rc, pts, scs, "MultiExp.jac", 0, 1025, 16, false)
 				g.msmEvent(t, rc, pts, scs, "MultiExp.aff", 0, 5000, 16, false)
 				g.msmEvent(t, rc, pts, scs, "MultiExp.jac", 0, 1024, 16, false)
+				// the same mismatches where the call splits itself recursively (many tasks, a few hundred points): the error
+				// must not be lost in a leaf of the recursion
+				rc2 := mk("lin", 300, 0)
+				pts2, scs2 := g.buildInputs(rc2)
+				g.msmEvent(t, rc2, pts2, scs2.Slice(0, 299), "MultiExp.jac", 0, 128, 16, false)
+				g.msmEvent(t, rc2, pts2.Slice(0, 298), scs2, "MultiExp.aff", 0, 1024, 16, false)
+				g.msmEvent(t, rc2, pts2, scs2.Slice(0, 150), "MultiExp.jac", 0, 500, 3, false)
 			}
 			// (3) every window size through _innerMsm, sizes chosen to cross the batch-affine thresholds
 			cs := []int{4, 5, 6, 7, 8, 9, 10, 11, 12, 13, 14, 15, 16}
